@@ -475,7 +475,7 @@ class Program:
             if isinstance(v, ast.UnaryOp) and isinstance(v.op, (ast.USub, ast.UAdd)):
                 return simple(v.operand)
             if isinstance(v, ast.Tuple):
-                return all(simple(e) for e in v.elts)
+                return all(simple(e) or (isinstance(e, (ast.Dict, ast.List, ast.Set)) and not (e.keys if isinstance(e, ast.Dict) else e.elts)) for e in v.elts)
             if isinstance(v, ast.Call) and dotted(v.func) == "float" and len(v.args) == 1 and isinstance(v.args[0], ast.Constant) and not v.keywords:
                 return True
             if isinstance(v, ast.Call) and dotted(v.func) in ("frozenset", "tuple") and not v.args and not v.keywords:
